@@ -52,6 +52,9 @@ type M struct {
 	bc      map[string]string // bcrypt hash -> preimage ("" = unknown)
 	recSets [][]string
 	Secrets map[string]string // every secret the harness typed or was shown -> kind
+	used     map[string]int
+	issuedN  map[string]int
+	smsIssue map[string]int // code -> how many times that code value has been sent
 	Last    *world.Result
 	LastObs string
 	LastOp  string
@@ -126,7 +129,8 @@ func New(cfg world.Cfg, out *wire.Out) (*M, error) {
 	if err != nil {
 		return nil, err
 	}
-	m := &M{W: w, Cfg: cfg, Out: out, sha: map[string]string{}, bc: map[string]string{}, Secrets: map[string]string{}}
+	m := &M{W: w, Cfg: cfg, Out: out, sha: map[string]string{}, bc: map[string]string{}, Secrets: map[string]string{},
+		used: map[string]int{}, issuedN: map[string]int{}, smsIssue: map[string]int{}}
 	out.Add(CfgLine(cfg), "cfg-ok")
 	return m, nil
 }
@@ -721,6 +725,9 @@ func (m *M) HTTP(b, route string, a Args, fault *world.Fault) *world.Result {
 				m.Secrets[c] = "recovery-code"
 			}
 		}
+	}
+	for _, sm := range r.NewSMS {
+		m.smsIssue[sm.Code]++
 	}
 	if fresh == "" && len(r.NewSMS) > 0 {
 		fresh = r.NewSMS[len(r.NewSMS)-1].Code
